@@ -34,6 +34,31 @@ theorem dec_enc : ∀ (b : List Nat), (∀ x ∈ b, x < 256) → dec (enc b) = s
     congr 2
     omega
 
+/-- the same digits in upper case (what other base16 encoders produce). -/
+def encUpper : List Nat → List Nat
+  | [] => []
+  | b :: rest => hexUpper (b / 16) :: hexUpper (b % 16) :: encUpper rest
+
+theorem encUpper_ascii : ∀ (b : List Nat), (∀ x ∈ b, x < 256) → ∀ y ∈ encUpper b, y < 128
+  | [], _ => by simp [encUpper]
+  | x :: rest, h => by
+    have hx : x < 256 := h x (by simp)
+    intro y hy
+    simp only [encUpper, List.mem_cons] at hy
+    rcases hy with hy | hy | hy
+    · subst hy; exact hexUpper_ascii _ (by omega)
+    · subst hy; exact hexUpper_ascii _ (by omega)
+    · exact encUpper_ascii rest (fun z hz => h z (by simp [hz])) y hy
+
+theorem dec_encUpper : ∀ (b : List Nat), (∀ x ∈ b, x < 256) → dec (encUpper b) = some b
+  | [], _ => rfl
+  | x :: rest, h => by
+    have hx : x < 256 := h x (by simp)
+    have ih := dec_encUpper rest (fun z hz => h z (by simp [hz]))
+    simp only [encUpper, dec, hexVal_hexUpper (x / 16) (by omega), hexVal_hexUpper (x % 16) (by omega), ih]
+    congr 2
+    omega
+
 end Base16
 
 namespace Base64
